@@ -545,10 +545,14 @@ class ChannelEngine(Engine):
         if g.shape != w.shape:
             raise Violation('C08.L5', {'what': 'property shape', 'property': nm, 'got': list(g.shape), 'want': list(w.shape)},
                             klass='propshape/%s/%s' % (nm, klass))
-        if w.dtype.kind in 'iu':
+        if w.dtype.kind in 'iu' and unit is None:
+            # integers written as integers, no conversion: exact.  (An integer-typed property that is written through a unit
+            # conversion - e.g. a charge that an earlier %.10g transfer rounded to whole numbers - is a float on the wire and
+            # is held to the printed precision like any other float.)
             if not np.array_equal(g, w):
                 raise Violation('C08.L5', {'what': 'integer property differs', 'property': nm, 'got': g, 'want': w}, klass='propvalue/%s/%s' % (nm, klass))
             return
+        w = np.asarray(w, dtype=float)
         Uw = W(unit, st['base']) if unit != 'scaled' else 1.0
         u = self._u(fmt, w / Uw) * Uw
         tol = SAFETY * u + 32 * EPS * np.abs(w)
